@@ -204,4 +204,66 @@ example (py : PyOracle) : floatsOk py circleEx = true := by
 example : mmF1.wf = true := by decide
 example : mmF1.dispatchOkFor (Text.ofString "Parent_thing") = false := by decide
 
+/-! Non-vacuity on the value-shape matrix of the harness (`harness/c10_shapes.py`): the four wrappings
+the project admits — `A`, `Optional[A]`, `List[A]`, `Optional[List[A]]` — of a byte array, and the
+same positions nested in a class held in a list.  A constrained primitive (`class C_bytes(bytearray)`,
+also a chain `CC_bytes(C_bytes)`) reaches the model erased to its constrainee (`Model/SdkData.lean`),
+so `Holder_c_bytes` below is what `harness/props/c10.py` sends for `req: C_bytes`, `items: List[C_bytes]`, …
+The instance has none / one / several items, the empty byte string and the bytes 0 and 255. -/
+
+def mmShapes : MM :=
+  { classes := [
+      { name := Text.ofString "Holder_c_bytes", abstract := false, withModelType := false,
+        props := [{ name := Text.ofString "req", ty := .prim .bytes },
+                  { name := Text.ofString "opt", ty := .opt (.prim .bytes) },
+                  { name := Text.ofString "items", ty := .list (.prim .bytes) },
+                  { name := Text.ofString "opt_items", ty := .opt (.list (.prim .bytes)) }],
+        concreteDescendants := [] },
+      { name := Text.ofString "Nest", abstract := false, withModelType := false,
+        props := [{ name := Text.ofString "held_c_bytes", ty := .opt (.list (.cls (Text.ofString "Holder_c_bytes"))) }],
+        concreteDescendants := [] }],
+    enums := [] }
+
+def holderShapesEx : Val :=
+  .inst (Text.ofString "Holder_c_bytes")
+    (.cons (.bytes [1, 2, 3]) (.cons .none
+      (.cons (.list (.cons (.bytes [1, 2, 3]) (.cons (.bytes [255, 254]) (.cons (.bytes [0]) (.cons (.bytes []) .nil)))))
+        (.cons (.list (.cons (.bytes [0, 255]) .nil)) .nil))))
+
+def holderEmptyShapesEx : Val :=
+  .inst (Text.ofString "Holder_c_bytes")
+    (.cons (.bytes []) (.cons (.bytes []) (.cons (.list .nil) (.cons (.list .nil) .nil))))
+
+def nestShapesEx : Val :=
+  .inst (Text.ofString "Nest") (.cons (.list (.cons holderShapesEx (.cons holderEmptyShapesEx .nil))) .nil)
+
+example : mmShapes.wfXml = true := by decide
+example : mmShapes.dispatchOkFor (Text.ofString "Nest") = true := by decide
+
+example : conformsNN mmShapes (.cls (Text.ofString "Nest")) nestShapesEx = true := by
+  simp [conformsNN, conformsFields, conforms, conformsAll, MM.findClass, mmShapes, nestShapesEx,
+    holderShapesEx, holderEmptyShapesEx, Text.ofString, bytesOk]
+
+/-- What `to_jsonable` writes for a `List[C]`, `C` a constrained primitive over `bytearray`: base64
+texts item by item, never the raw bytes (the independently seeded change C10-6 made the generated
+`transform_…` pass the items "as they are"). -/
+example : toJson mmShapes holderShapesEx =
+    .obj (.cons (Text.ofString "req") (.str (Text.ofString "AQID"))
+      (.cons (Text.ofString "items")
+        (.arr (.cons (.str (Text.ofString "AQID")) (.cons (.str (Text.ofString "//4=")) (.cons (.str (Text.ofString "AA=="))
+          (.cons (.str []) .nil)))))
+      (.cons (Text.ofString "optItems") (.arr (.cons (.str (Text.ofString "AP8=")) .nil)) .nil))) := by
+  rfl
+
+/-- the round-trip theorems apply to it (JSON and XML) -/
+example : fromJson mmShapes (Text.ofString "Nest") (toJson mmShapes nestShapesEx) = .ok nestShapesEx :=
+  json_roundtrip_partial mmShapes (by decide) _ _ (by decide)
+    (by simp [conformsNN, conformsFields, conforms, conformsAll, MM.findClass, mmShapes, nestShapesEx,
+      holderShapesEx, holderEmptyShapesEx, Text.ofString, bytesOk])
+example (ns : Text) (py : PyOracle) (hint : py.intOk) :
+    fromXml mmShapes ns py (Text.ofString "Nest") (toXml mmShapes ns nestShapesEx) = .ok nestShapesEx :=
+  xml_roundtrip mmShapes (by decide) ns py hint _ _ (by simp [conformsNN, conformsFields, conforms, conformsAll, MM.findClass, mmShapes, nestShapesEx,
+      holderShapesEx, holderEmptyShapesEx, Text.ofString, bytesOk])
+    (by simp [floatsOk, floatsOkL, nestShapesEx, holderShapesEx, holderEmptyShapesEx])
+
 end AasVerif.Props.C10
